@@ -1,0 +1,6 @@
+//go:build !verif
+
+package stackage
+
+// verifPoint is a no-op unless built with -tags verif (see verif_on.go).
+func verifPoint(string, *stack) {}
